@@ -160,8 +160,8 @@ class WriteBack(WritePolicy):
         return len(self._dirty_keys) >= self._max_dirty
 
     def get_keys_to_flush(self) -> list[str]:
-        """Get all dirty keys."""
-        return list(self._dirty_keys)
+        """Get all dirty keys (sorted: set iteration order depends on PYTHONHASHSEED)."""
+        return sorted(self._dirty_keys)
 
     def on_flush(self, keys: list[str]) -> None:
         """Remove flushed keys from dirty set."""
